@@ -522,12 +522,11 @@ def is_heavy(label):
 
 # light classes that are also run at nb=3 (thorough)
 VARIANT_TAGS = ("internal_terms=False", "sign=", "OO_uIu", "FF_rotAA", "CCab_antisym", "S_terms=True")
-# nb=3, measured on one core with two band groups: do not finish within 240 s -> not run at nb=3 (nb=2 covers them)
-NB3_EXCLUDED = ("covariant.Der2Morb external_terms=False", "covariant.Der2Morb_H external_terms=False", "covariant.Der2Omega", "covariant.Der2Omega external_terms=False",
-                "covariant.Der2morb external_terms=False", "covariant.NLDrude_Z_orb_Hplus external_terms=False", "covariant.NLDrude_Z_orb_Omega external_terms=False", "covariant.OmegaHplus",
-                "covariant.VelDQM", "covariant.emcha_surf external_terms=False", "dynamic.ShiftCurrentFormula external_terms=True")
-# nb=3, 30..170 CPU-s with two band groups: one worker each, two band groups; everything else gets six band groups
-NB3_EXPENSIVE = ("covariant.DerMorb", "covariant.Dermorb", "covariant.DerQuantumMetric_ab_d", "covariant.NLDrude_Z_spin", "covariant.NLDrude_Z_spin external_terms=False", "basic.Der_morb",
+# nb=3, measured on one core with two band groups: need more than 10 CPU-minutes per mode (ShiftCurrent external: 700 s, the others did not finish in 240..1500 s) -> not run at nb=3 (nb=2 covers them)
+NB3_EXCLUDED = ("covariant.Der2Morb external_terms=False", "covariant.Der2Omega", "covariant.Der2morb external_terms=False", "covariant.NLDrude_Z_orb_Hplus external_terms=False",
+                "covariant.NLDrude_Z_orb_Omega external_terms=False", "covariant.emcha_surf external_terms=False", "dynamic.ShiftCurrentFormula external_terms=True")
+# nb=3, 30..500 CPU-s with two band groups: one worker each, two band groups; everything else gets six band groups
+NB3_EXPENSIVE = ("covariant.Der2Morb_H external_terms=False", "covariant.Der2Omega external_terms=False", "covariant.OmegaHplus", "covariant.VelDQM", "covariant.DerMorb", "covariant.Dermorb", "covariant.DerQuantumMetric_ab_d", "covariant.NLDrude_Z_spin", "covariant.NLDrude_Z_spin external_terms=False", "basic.Der_morb",
                  "basic.tildeHGc_d", "basic.tildeFc_d", "covariant.OmegaOmega", "covariant.VelDQM external_terms=False", "sdct.Formula_SDCT_sea_I sym=True", "sdct.Formula_SDCT_sea_I sym=False",
                  "dynamic.ShiftCurrentFormula external_terms=False", "sdct.Formula_SDCT_surf_II sym=False", "sdct.Formula_SDCT_surf_II sym=False external_terms=False",
                  "covariant.SpinOmega qiao external_terms=True", "dynamic.Formula_SHC qiao external_terms=True")
@@ -539,7 +538,7 @@ CALC_MEDIUM = ("static.AHC_Zeeman_orb", "static.GME_orb_FermiSea", "static.GME_o
 OUTSIDE += ["declared transforms that no calculator reads: basic.tildeHab / tildeHab_d (consumed only through .nn by tildeHGab*, which carry no declaration of their own) and "
             "get_transform_TR/Inv('FF'|'GG') of the bare covariant matrices (every formula built on them declares its own transform); their declarations were found "
             "inconsistent with the computed parity and are recorded as an observation in DESIGN.md, not as a violation of this property"]
-OUTSIDE += ["nb=3 for " + ", ".join(NB3_EXCLUDED) + " and for the heavy classes (do not finish within 240 CPU-s per variant at nb=3; nb=2 covers them)",
+OUTSIDE += ["nb=3 for " + ", ".join(NB3_EXCLUDED) + " and for the heavy classes (more than 10 CPU-minutes per variant and mode at nb=3; nb=2 covers them)",
             "calculator level: " + ", ".join(CALC_HEAVY) + " (formulas of 20..60 CPU-s per evaluation times ~60 Fermi-placement paths), the SDCT surface terms and any kBT>0 (exp of symbolic "
             "energies), Gaussian smearing, tetrahedron weights, tabulate.DerOrbitalMoment_test (refers to a non-existent formula class, cannot be instantiated)"]
 OUTSIDE += ["quick tier skips (thorough runs them): the variants internal_terms=False, sign=-1/0, OO_uIu, FF_rotAA, CCab_antisym, S_terms=True of every class, and " + ", ".join(l for l in registry() if is_heavy(l)),
